@@ -79,9 +79,9 @@ CHECKS = {
     ),
     "C03": dict(
         technique=MULTI,
-        text="TLC enumerates trees with the source leaf in the SQL engine or an iteration engine, up to 2 (quick) / 3 (thorough) default-option calls (8 operations, transfers to each of three engines incl. round trips and self-transfers, materializations), then ONE final operation out of 6-16 (calculation, projections incl. ones that drop columns needed downstream, selections, deduplication, sorts, slices) with all 24 combinations of preferred engine x backtrack x transfer x require_preferred_engine, and joins with a SQL leaf under every backtrack/transfer combination. On the code-shaped apply/backtrack/commute/transfer rules TLC proves: content equals the naive application (list or bag, as determined), columns equal, no ColumnError from placement (NoPlacementColumnError), transfer=>result in the preferred engine unless backtracking fully succeeded, require=>no operation added outside it. Every state is replayed through the real API, processed by a real Processor (SQLite temp tables <-> RowSequence) and executed; rows, columns, engine and operation counts per engine are compared with TLC's oracle. The final call is ALSO issued on the tree returned by Processor.process() (transfers and materializations hold payloads): TLC runs the as-coded processor model (RA_Proc) and then the same apply/backtrack rules on the payloaded tree and proves ProcessedBaseSound (accepted like on the unprocessed tree, well-formed, reference rows, truthful bounds, a payload survives only on a marker whose upstream is unchanged); the replay does the same with a real Processor and compares rows, tree structure and the payload cell of every marker with the model. Joins are issued both as rel.join(T2) and as Join(p).partial(T2, is_lhs=True).apply(rel). Additionally 1 500 (quick) / 40 000 (thorough) seeded RANDOM POOL PROGRAMS (8-16 steps building on any earlier member: operations with random preferred-engine options, chains, joins incl. explicit max_columns, transfers among three engines, materializations, trees returned by process()) are evaluated for real and judged by TLC (TracePool.tla), which computes the reference rows of every member from the recorded steps and applies its own determinacy analysis to the real tree.",
+        text="TLC enumerates trees with the source leaf in the SQL engine or an iteration engine, up to 2 (quick) / 3 (thorough) default-option calls (8 operations, transfers to each of three engines incl. round trips and self-transfers, materializations), then ONE final operation out of 6-16 (calculation, projections incl. ones that drop columns needed downstream, selections, deduplication, sorts, slices) with all 24 combinations of preferred engine x backtrack x transfer x require_preferred_engine, and joins with a SQL leaf under every backtrack/transfer combination. On the code-shaped apply/backtrack/commute/transfer rules TLC proves: content equals the naive application (list or bag, as determined), columns equal, no ColumnError from placement (NoPlacementColumnError), transfer=>result in the preferred engine unless backtracking fully succeeded, require=>no operation added outside it. Every state is replayed through the real API, processed by a real Processor (SQLite temp tables <-> RowSequence) and executed; rows, columns, engine and operation counts per engine are compared with TLC's oracle. The final call is ALSO issued on the tree returned by Processor.process() (transfers and materializations hold payloads): TLC runs the as-coded processor model (RA_Proc) and then the same apply/backtrack rules on the payloaded tree and proves ProcessedBaseSound (accepted like on the unprocessed tree, well-formed, reference rows, truthful bounds, a payload survives only on a marker whose upstream is unchanged); the replay does the same with a real Processor and compares rows, tree structure and the payload cell of every marker with the model. Joins are issued both as rel.join(T2) and as Join(p).partial(T2, is_lhs=True).apply(rel). Additionally 1 500 (quick) / 40 000 (thorough) seeded RANDOM POOL PROGRAMS (8-16 steps building on any earlier member: operations with random preferred-engine options, chains, joins incl. explicit max_columns, transfers among three engines, materializations, trees returned by process()) are evaluated for real and judged by TLC (TracePool.tla), which computes the reference rows of every member from the recorded steps and applies its own determinacy analysis to the real tree. Behaviour spec IdJoin (added last): a join identity or an ordinary two-row leaf of each of the three engines under <=2 transfers and one operation / locked materialization, joined through Join().partial(fixed, is_lhs).apply(...) with a fixed operand of each engine (a three-row leaf, or a join identity made by a zero-column projection) under every preferred_engine x backtrack x transfer x require_preferred_engine combination: TLC proves well-formedness, content and RequireHonoured (with require the call adds no operation outside the preferred engine) on the as-coded rules; every state is replayed, the real tree judged by TLC, every refused request refused by the real code.",
         design_ref="§6 C03",
-        note="open findings F2 (projection past deduplication, pinned by a repository test) and F8 (SQL materialization after a transfer) are excluded by matcher+signature and reported as KNOWN-FINDING; a companion configuration proves the F2 class still violates; F17 (failed backtrack through a payloaded Transfer) was found by this check and fixed in /repo (9442585); companion MultiKF17 re-derives it from the pinned-commit rule; F20 (a join moved below a projection lets the operations in between read the fixed operand's columns) was found by the random pool programs and fixed in /repo (67a6a29), companion MultiKF20; F18 fixed (63f7a7c), companion MultiKF18",
+        note="open findings F2 (projection past deduplication, pinned by a repository test) and F8 (SQL materialization after a transfer) are excluded by matcher+signature and reported as KNOWN-FINDING; a companion configuration proves the F2 class still violates; F17 (failed backtrack through a payloaded Transfer) was found by this check and fixed in /repo (9442585); companion MultiKF17 re-derives it from the pinned-commit rule; F20 (a join moved below a projection lets the operations in between read the fixed operand's columns) was found by the random pool programs and fixed in /repo (67a6a29), companion MultiKF20; F18 fixed (63f7a7c), companion MultiKF18; F31 (require_preferred_engine not honoured for a partial join whose explicit preferred engine is not the fixed operand's) is an OPEN known finding with matcher IdJoin!KF31Match + signature, companion IdJoinKF31",
     ),
     "C15": dict(
         technique=MULTI,
